@@ -96,3 +96,10 @@ Theorem C19_options_of_different_kinds_commute : forall l1 a b l2, same_kind a b
   build_ecfg (l1 ++ Some a :: Some b :: l2) = build_ecfg (l1 ++ Some b :: Some a :: l2).
 Proof. exact different_kinds_commute. Qed.
 Print Assumptions C19_options_of_different_kinds_commute.
+
+(* ... so an evaluator built from an option list with nil entries evaluates exactly like the one built without them *)
+Theorem C19_nil_option_does_not_change_evaluation : forall re_ok re_match l1 l2 recorder E P c f,
+  run re_ok re_match (opts_of (build_ecfg (l1 ++ None :: l2)) recorder) E P c f =
+  run re_ok re_match (opts_of (build_ecfg (l1 ++ l2)) recorder) E P c f.
+Proof. exact nil_option_does_not_change_evaluation. Qed.
+Print Assumptions C19_nil_option_does_not_change_evaluation.
